@@ -277,6 +277,9 @@ class Prov:
                 elif k == "Aggregate":
                     for o in rv["ops"]:
                         new |= self.op_tags(b, o)
+                    if self.mark_inner and rv.get("agg") == "Adt" and (rv.get("adt") == "serde_json::Value" or self._is_local_adt(rv.get("adt") or "")):
+                        # (C01 structural descent only) a tree built around parts of a parameter may be larger than the parameter
+                        new = {t if ".built" in t else t.split(".in")[0] + ".built" for t in new}
                     if rv.get("agg") == "Closure":
                         ck = rv["closure"]
                         for i, o in enumerate(rv["ops"]):
@@ -630,8 +633,10 @@ def analyse(roles):
         info = roles.op_fns.get(root)
         how = ""
         verdict = "dirty"
-        if info and info["role"] == "lazy":
-            rb = roles.facts.body(root)
+        rb = roles.facts.body(root)
+        # the case analysis is an argument about one function and the places it switches on: it holds for a lazy operator
+        # and equally for a private function that an operator hands its operand list to (`all`/`some` → one shared body)
+        if (info and info["role"] == "lazy") or (rb is not None and rb.kind == "fn" and root not in roles.op_fns and not (roles.facts.items.get(root, {}).get("exported") or roles.facts.items.get(root, {}).get("reachable")) and switch_places(rb, roles)):
             places = switch_places(rb, roles)
             if places:
                 ok_all = True
